@@ -10,6 +10,7 @@ import (
 	"strconv"
 	"strings"
 	"sync"
+	"sync/atomic"
 	"testing"
 	"time"
 
@@ -97,10 +98,10 @@ type c20wWire struct {
 	cmLive        *corev1.ConfigMap    // the ConfigMap as the API returned it for the last event (the next Update's old object)
 	nodeLive      map[string]*corev1.Node
 	setupErr      string
+	flushes       int
 }
 
 var c20wLogOnce sync.Once
-var c20wT [3]time.Duration // time spent starting managers / waiting for delivery + observing / stopping managers
 
 // settle bounds: generous for the first failing waits of a run (a replay runs one case, so it always gets the long bound),
 // short afterwards so that a tree that never delivers does not take hours.
@@ -115,8 +116,6 @@ func c20wBound() time.Duration {
 
 // startWired: a real manager + the real SetupWithManager; returns when the controller's three watches are registered.
 func (w *c20xWorld) startWired(c *c20xCase) {
-	t0 := time.Now()
-	defer func() { c20wT[0] += time.Since(t0) }()
 	c20wLogOnce.Do(func() { ctrllog.SetLogger(logr.Discard()) })
 	wi := &c20wWire{nodeLive: map[string]*corev1.Node{}, done: make(chan error, 1)}
 	w.wire = wi
@@ -179,8 +178,6 @@ func (w *c20xWorld) startWired(c *c20xCase) {
 }
 
 func (wi *c20wWire) stop(c *c20xCase) {
-	t0 := time.Now()
-	defer func() { c20wT[2] += time.Since(t0) }()
 	if wi.setupErr != "" {
 		c.h.Extra("wiring_setup_error", wi.setupErr)
 		c.fail("C20:hist:harness-setup", "could not run the controller in a manager: %s", wi.setupErr)
@@ -217,6 +214,9 @@ func (wi *c20wWire) evCM(c *c20xCase, kind int, obj *corev1.ConfigMap) {
 	if old != nil && old.Generation != live.Generation {
 		c.fail("C20:hist:harness-api", "the fake API changed the ConfigMap's metadata.generation (%d -> %d)", old.Generation, live.Generation)
 	}
+	if old != nil && old.ResourceVersion == live.ResourceVersion {
+		c.fail("C20:hist:harness-api", "the fake API did not assign a new resourceVersion to the updated ConfigMap (%q)", live.ResourceVersion)
+	}
 	if kind == 1 || old == nil {
 		wi.cm.send(func(fi *controllertest.FakeInformer) { fi.Add(live) })
 	} else {
@@ -250,6 +250,10 @@ func (wi *c20wWire) evNode(c *c20xCase, kind int, obj *corev1.Node) {
 	c.w.must(c.w.cl.Get(c.ctx, types.NamespacedName{Name: obj.Name}, live), "get node for event")
 	old := wi.nodeLive[obj.Name]
 	wi.nodeLive[obj.Name] = live.DeepCopy()
+	if old != nil && (old.Generation != live.Generation || old.ResourceVersion == live.ResourceVersion) {
+		c.fail("C20:hist:harness-api", "the fake API changed the Node's metadata.generation (%d -> %d) or kept its resourceVersion (%q -> %q)",
+			old.Generation, live.Generation, old.ResourceVersion, live.ResourceVersion)
+	}
 	if kind == 1 || old == nil {
 		wi.node.send(func(fi *controllertest.FakeInformer) { fi.Add(live) })
 	} else {
@@ -259,9 +263,10 @@ func (wi *c20wWire) evNode(c *c20xCase, kind int, obj *corev1.Node) {
 
 // delivered: the quiescence criterion of the model (stored_eq_recomputed_*): every node has a NodeSLO whose spec is exactly
 // what the cache delivers for the node's current labels now, and there is no NodeSLO without a node.  All events have been
-// handled (synchronously) before this is asked, so the cache is final: every reconcile still queued recomputes exactly this
-// spec and writes nothing - the state is stable once the criterion holds, on any tree whose reconcile is a function of
-// (cache, node).  Whether that state is the RIGHT one is the oracle's business afterwards.
+// handled (synchronously) before this is asked, so the cache is final: every reconcile that STARTS from now on recomputes
+// exactly this spec and writes nothing; only a reconcile that was already running when the last event arrived can still
+// write an older spec - settle() flushes it out before it trusts the criterion.  Whether the stable state is the RIGHT one is
+// the oracle's business afterwards.
 func (c *c20xCase) delivered() bool {
 	sl := &slov1alpha1.NodeSLOList{}
 	if err := c.w.cl.List(c.ctx, sl); err != nil {
@@ -298,15 +303,39 @@ func (c *c20xCase) delivered() bool {
 	return true
 }
 
+const c20wFlushPrefix = "c20w-flush-"
+
+// flush: a reconcile that was already running when the last event was handled may still write a spec computed from the
+// cache BEFORE that event (and is then queued again).  To get past it, a request for a name that has neither Node nor
+// NodeSLO goes through the node watch (Add event of an object that is not in the API; its reconcile reads both, finds
+// nothing, does nothing); the controller has ONE worker and a FIFO queue, so when that request is being reconciled (seen by
+// the client hook) every reconcile that started before it is over.  Returns false if the worker did not get there in time.
+func (c *c20xCase) flush(deadline time.Time) bool {
+	wi := c.w.wire
+	wi.flushes++
+	obj := &corev1.Node{}
+	obj.Name = fmt.Sprintf("%s%d", c20wFlushPrefix, wi.flushes)
+	obj.ResourceVersion = "1"
+	before := atomic.LoadInt64(&c.w.flushSeen)
+	wi.node.send(func(fi *controllertest.FakeInformer) { fi.Add(obj) })
+	for atomic.LoadInt64(&c.w.flushSeen) == before {
+		if time.Now().After(deadline) {
+			return false
+		}
+		time.Sleep(100 * time.Microsecond)
+	}
+	return true
+}
+
 // settle: bounded wait for the delivery, then the quiescent observation + oracle.
 func (c *c20xCase) settle(round int) {
-	t0 := time.Now()
-	defer func() { c20wT[1] += time.Since(t0) }()
 	bound := c20wBound()
 	start := time.Now()
+	deadline := start.Add(bound)
 	ok := false
 	for {
-		if ok = c.delivered(); ok || time.Since(start) > bound {
+		// delivered, no reconcile from before the last event left, and still delivered: stable from here on
+		if ok = c.delivered() && c.flush(deadline) && c.delivered(); ok || time.Now().After(deadline) {
 			break
 		}
 		time.Sleep(300 * time.Microsecond)
@@ -329,7 +358,7 @@ func TestVerifC20Wiring(t *testing.T) {
 		t.Skip("VERIF_OUT not set")
 	}
 	env := c20xNewEnv()
-	n := h.N(120, 1200)
+	n := h.N(300, 2000)
 	for idx := 0; idx < n; idx++ {
 		r := h.Begin(idx)
 		if r == nil {
@@ -341,7 +370,6 @@ func TestVerifC20Wiring(t *testing.T) {
 		}
 		c.finish()
 	}
-	h.Extra("wiring_time_ms_start_settle_stop", fmt.Sprintf("%d %d %d", c20wT[0].Milliseconds(), c20wT[1].Milliseconds(), c20wT[2].Milliseconds()))
 	h.Close("one REAL controller-runtime manager per case (informertest.FakeInformers as cache, fake client as API) with the REAL NodeSLOReconciler.SetupWithManager; " +
 		"2-4 rounds of 1-3 API changes + informer events through the registered watches (round 1: ConfigMap Add and a node Add in either order; then ConfigMap Updates " +
 		"(generation never changes; all update variations of the hist harness incl. renamed/reordered entries), ConfigMap delete, foreign ConfigMaps, node add/relabel/touch/delete); " +
